@@ -651,7 +651,7 @@ def rule_tag_table(fx, col):
             if U.callee_name(t) in ('set', 'replace') and 'cell::Cell' in t['callee'].get('path', '') and len(t['args']) == 2:
                 r_, f_ = b.ref_path(t['args'][0])
                 ff = [x for x in f_ if x['k'] == 'field']
-                if ff and ff[-1]['adt'] == 'arc_swap::debt::helping::Local' and ff[-1]['name'] == 'generation':
+                if any(x['adt'] == 'arc_swap::debt::helping::Local' and x['name'] == 'generation' for x in ff):
                     sets.append((bb, t))
         n_adv += 1
         pub = {o[1] for o in b.origins(s_.arg(1), binops=True) if o[0] == 'call'} & incs
